@@ -89,3 +89,48 @@ package keeper
 //@ ensures [stale_iff_latest_checkpoint_older_than_two_weeks] err == nil ==> (stale <==> ret(GetValidatorSetTimestampBefore, 0) < unixms(blocktime(ctx) + 1000000000 - 1209600000000000))
 //@ ensures [looks_at_checkpoints_up_to_now] called(GetValidatorSetTimestampBefore) && arg(GetValidatorSetTimestampBefore, targetTimestamp) == unixms(blocktime(ctx) + 1000000000)
 //@ ensures [reads_only] nothing_written()
+
+// EncodeAndHashValidatorSet packs the set with go-ethereum's abi package and hashes it (C15; not modelled): trusted frame.
+//@ func (k Keeper).EncodeAndHashValidatorSet(ctx, validatorSet) (encoded, hash, err)
+//@ trusted
+
+// psum(s, n): total power of the first n members of a bridge validator set.
+//@ define psum(s, n) = sum j in [0, n) :: s[j].Power
+//@ define newts(ctx) = unixms(blocktime(ctx))
+
+//@ func (k Keeper).GetCurrentValidatorsEVMCompatible(ctx) (set, err)
+//@ ensures [never_empty] err == nil ==> len(set) > 0
+//@ ensures [members_present_with_positive_power] err == nil ==> forall j in [0, len(set)) :: set[j] != nil && set[j].Power != 0
+//@ ensures [reads_only] nothing_written()
+//@ loop 0 "for _, validator := range validators"
+//@ loop 0 invariant [members_so_far_have_positive_power] forall j in [0, len(bridgeValset)) :: allocated(bridgeValset[j]) && bridgeValset[j].Power != 0
+
+//@ func (k Keeper).GetCurrentValidatorSetEVMCompatible(ctx) (vs, err)
+//@ ensures [set_present_and_never_empty] err == nil ==> vs != nil && len(vs.BridgeValidatorSet) > 0 && forall j in [0, len(vs.BridgeValidatorSet)) :: vs.BridgeValidatorSet[j] != nil && vs.BridgeValidatorSet[j].Power != 0
+//@ ensures [reads_only] nothing_written()
+
+//@ func (k Keeper).SetBridgeValidatorParams(ctx, bridgeValidatorSet) (err)
+//@ requires [set_present] bridgeValidatorSet != nil && forall j in [0, len(bridgeValidatorSet.BridgeValidatorSet)) :: bridgeValidatorSet.BridgeValidatorSet[j] != nil
+//@ requires [total_power_below_2_63] forall m in [0, len(bridgeValidatorSet.BridgeValidatorSet) + 1) :: psum(bridgeValidatorSet.BridgeValidatorSet, m) < 9223372036854775808
+//@ requires [block_time_not_before_1970] unixms(blocktime(ctx)) >= 0
+//@ requires [checkpoint_index_below_2_64] has(bridge.LatestCheckpointIdx) ==> bridge.LatestCheckpointIdx.Index < 18446744073709551615
+//@ modifies bridge.ValidatorCheckpoint, bridge.BridgeValsetByTimestampMap, bridge.BridgeValsetSignaturesMap, bridge.ValidatorCheckpointParamsMap, bridge.ValidatorCheckpointIdxMap, bridge.LatestCheckpointIdx, bridge.ValsetTimestampToIdxMap
+//@ ensures [threshold_is_two_thirds_of_total_power] err == nil ==> arg(CalculateValidatorSetCheckpoint, powerThreshold) == old(psum(bridgeValidatorSet.BridgeValidatorSet, len(bridgeValidatorSet.BridgeValidatorSet))) * 2 / 3
+//@ ensures [checkpoint_is_stamped_with_the_block_time] err == nil ==> arg(CalculateValidatorSetCheckpoint, validatorTimestamp) == newts(ctx) && bytes(arg(CalculateValidatorSetCheckpoint, validatorSetHash)) == bytes(ret(EncodeAndHashValidatorSet, 1))
+//@ ensures [set_stored_under_the_checkpoint_timestamp] err == nil ==> has(bridge.BridgeValsetByTimestampMap, newts(ctx)) && bridge.BridgeValsetByTimestampMap[newts(ctx)] == deref(bridgeValidatorSet) && has(bridge.ValidatorCheckpoint) && bytes(bridge.ValidatorCheckpoint.Checkpoint) == bytes(ret(CalculateValidatorSetCheckpoint, 0))
+//@ ensures [first_checkpoint_has_one_slot_per_own_member] err == nil && bridge.LatestCheckpointIdx.Index == 0 ==> has(bridge.BridgeValsetSignaturesMap, newts(ctx)) && len(bridge.BridgeValsetSignaturesMap[newts(ctx)].Signatures) == len(bridgeValidatorSet.BridgeValidatorSet)
+//@ ensures [later_checkpoints_have_one_slot_per_member_of_the_previous_set] err == nil && bridge.LatestCheckpointIdx.Index > 0 ==> has(bridge.BridgeValsetSignaturesMap, newts(ctx)) && len(bridge.BridgeValsetSignaturesMap[newts(ctx)].Signatures) == len(bridge.BridgeValsetByTimestampMap[bridge.ValidatorCheckpointIdxMap[bridge.LatestCheckpointIdx.Index - 1].Timestamp].BridgeValidatorSet)
+//@ loop 0 "for _, validator := range bridgeValidatorSet.BridgeValidatorSet"
+//@ loop 0 invariant [total_so_far] totalPower == psum(bridgeValidatorSet.BridgeValidatorSet, $i)
+
+//@ func (k Keeper).CompareAndSetBridgeValidators(ctx) (changed, err)
+//@ requires [block_time_at_least_two_weeks_after_1970] unixms(blocktime(ctx)) >= 1209600000
+//@ requires [checkpoint_index_below_2_64] has(bridge.LatestCheckpointIdx) ==> bridge.LatestCheckpointIdx.Index < 18446744073709551615
+//@ requires [saved_set_members_present] has(bridge.BridgeValset) ==> forall j in [0, len(bridge.BridgeValset.BridgeValidatorSet)) :: bridge.BridgeValset.BridgeValidatorSet[j] != nil
+//@ modifies bridge.*
+//@ ensures [first_set_is_always_checkpointed] err == nil && !old(has(bridge.BridgeValset)) ==> called(SetBridgeValidatorParams) && !changed
+//@ ensures [stale_checkpoint_is_always_renewed] err == nil && old(has(bridge.BridgeValset)) && ret(LastSavedValidatorSetStale, 0) ==> called(SetBridgeValidatorParams) && changed
+//@ ensures [a_shift_of_at_least_5_percent_is_checkpointed] err == nil && old(has(bridge.BridgeValset)) && called(PowerDiff) && ret(PowerDiff, 0) >= 50000 ==> called(SetBridgeValidatorParams) && changed
+//@ ensures [a_fresh_checkpoint_is_kept_below_5_percent] err == nil && old(has(bridge.BridgeValset)) && !ret(LastSavedValidatorSetStale, 0) && called(PowerDiff) && ret(PowerDiff, 0) < 50000 ==> !called(SetBridgeValidatorParams) && !changed && nothing_written()
+//@ ensures [an_unchanged_fresh_set_is_kept] err == nil && old(has(bridge.BridgeValset)) && !ret(LastSavedValidatorSetStale, 0) && !called(PowerDiff) ==> !called(SetBridgeValidatorParams) && !changed && nothing_written()
+//@ ensures [the_checkpointed_set_is_the_current_one] err == nil && called(SetBridgeValidatorParams) ==> arg(SetBridgeValidatorParams, bridgeValidatorSet) == ret(GetCurrentValidatorSetEVMCompatible, 0) && has(bridge.BridgeValset)
